@@ -35,8 +35,11 @@ type Corruption struct {
 }
 
 type C10Body struct {
-	W       WorldSpec   `json:"world"`
-	Target  int         `json:"target"` // which storage file (index into the sorted list) is corrupted
+	W      WorldSpec `json:"world"`
+	Target int       `json:"target"` // which storage file (index into the sorted list) is corrupted
+	// Journal: in a journaling world, corrupt the journal itself (its records are replayed at every
+	// open and decide which root the store shows)
+	Journal bool        `json:"journal,omitempty"`
 	MaxCase int         `json:"max_cases"`
 	Only    *Corruption `json:"only,omitempty"`
 }
@@ -46,6 +49,10 @@ func (C10) Generate(seed uint64, tier string) *core.Scenario {
 	b := C10Body{}
 	b.W = genWorld(r, []string{"journal", "journal", "local", "local", "local-gc", "local-archive", "local-archive", "journal-archive"}, 14, 90)
 	b.Target = r.Intn(8)
+	if strings.HasPrefix(b.W.Kind, "journal") && core.NewRand(seed^0xc10a).Chance(1, 2) {
+		b.Journal = true
+		b.W.Cfg.MaxNovel = 16384 // no index batch: the whole journal is replayed
+	}
 	b.MaxCase = 1600
 	if tier == "thorough" {
 		b.MaxCase = 12000
@@ -83,6 +90,9 @@ type readProbe struct {
 	errors   int
 	absent   int
 	ok       int
+	// the root the store showed after a successful open
+	root   hash.Hash
+	rootOK bool
 }
 
 func (p *readProbe) guard(what string, f func()) {
@@ -115,8 +125,10 @@ func exerciseStore(ctx context.Context, w *World, dir string, extra []hash.Hash,
 	}
 	defer p.guard("close", func() { st.Close() })
 	p.guard("root", func() {
-		if _, err := st.Root(ctx); err != nil {
+		if r, err := st.Root(ctx); err != nil {
 			p.errors++
+		} else {
+			p.root, p.rootOK = r, true
 		}
 	})
 	p.guard("count", func() { st.Count(ctx) })
@@ -290,6 +302,8 @@ func (C10) Execute(t *testing.T, sc *core.Scenario) *core.Result {
 		return res
 	}
 	// sanity: the pristine fixture must read back completely
+	var pristineRoot hash.Hash
+	pristineRootOK := false
 	{
 		var p readProbe
 		exerciseStore(ctx, w, w.Dir, nil, &p)
@@ -297,8 +311,16 @@ func (C10) Execute(t *testing.T, sc *core.Scenario) *core.Result {
 			res.Panic = fmt.Sprintf("pristine fixture does not read back: %+v", p)
 			return res
 		}
+		pristineRoot, pristineRootOK = p.root, p.rootOK
 	}
 	target := targets[b.Target%len(targets)]
+	if b.Journal {
+		for _, t := range targets {
+			if fileKind(t) == "journal" {
+				target = t
+			}
+		}
+	}
 	if b.Only != nil && b.Only.File != "" {
 		target = b.Only.File
 	}
@@ -332,6 +354,19 @@ func (C10) Execute(t *testing.T, sc *core.Scenario) *core.Result {
 		}
 		for o := 0; o < n; o += 4096 {
 			cases = append(cases, Corruption{File: target, Kind: "zero4k", Off: o})
+		}
+		if kind == "journal" {
+			// every bit of every record's length field: a length that is wrong in a plausible way decides
+			// where the reader looks next - for the end of the record, and for what follows the damage
+			offs, _, _, _ := nbs.DsimParseJournal(orig)
+			for _, o := range offs {
+				for byteIdx := 0; byteIdx < 4; byteIdx++ {
+					for bit := 0; bit < 8; bit++ {
+						cases = append(cases, Corruption{File: target, Kind: "flip", Off: int(o) + byteIdx, Mask: byte(1 << bit)})
+					}
+				}
+			}
+			res.Probe("journal_length_fields_enumerated")
 		}
 	}
 
@@ -425,6 +460,17 @@ func (C10) Execute(t *testing.T, sc *core.Scenario) *core.Result {
 			pin(res.Violate("panic-on-corrupted-file", fmt.Sprintf("file=%s;panic_in=%s", kind, p.sites[0]), ci,
 				"%s %s at offset %d/%d (mask %#x) of %s: %s", c.Kind, kind, c.Off, len(orig), c.Mask, target, p.panics[0]))
 		}
+		// a damaged record in the middle of the journal that is followed by committed data (a valid root
+		// record that is itself followed by a valid record - dolt's own criterion for "not a torn tail")
+		// has to be reported; opening without error at an older root drops acknowledged commits silently
+		if kind == "journal" && c.Kind == "flip" && p.rootOK && p.errors == 0 && len(p.panics) == 0 && pristineRootOK && p.root != pristineRoot {
+			if k, pairs := journalDamageFollowedByCommits(orig, c.Off); pairs > 0 {
+				pin(res.Violate("journal-damage-silently-truncated", "file=journal;field="+journalField(orig, c.Off), ci,
+					"%s journal at offset %d/%d (mask %#x), inside record %d which is followed by %d valid root record(s) that are followed by another valid record: the store opens without error and shows root %s instead of %s", c.Kind, c.Off, len(orig), c.Mask, k, pairs, short(p.root), short(pristineRoot)))
+			} else {
+				res.Probe("journal_tail_damage_dropped_silently")
+			}
+		}
 		if len(p.misreads) > 0 {
 			path, _, _ := strings.Cut(p.misreads[0], "(")
 			pin(res.Violate("misread-on-corrupted-file", fmt.Sprintf("file=%s;path=%s;region=%s", kind, path, region(kind, orig, c.Off)), ci,
@@ -459,6 +505,41 @@ func region(kind string, orig []byte, off int) string {
 }
 
 func (C10) Shrinks(sc *core.Scenario) []*core.Scenario { return nil }
+
+// journalDamageFollowedByCommits: the record of the undamaged journal that offset off falls in, and the
+// number of root records after it that are followed by another valid record.
+func journalDamageFollowedByCommits(orig []byte, off int) (rec int, pairs int) {
+	offs, lens, kinds, _ := nbs.DsimParseJournal(orig)
+	rec = -1
+	for i := range offs {
+		if int64(off) >= offs[i] && int64(off) < offs[i]+int64(lens[i]) {
+			rec = i
+		}
+	}
+	if rec < 0 {
+		return -1, 0
+	}
+	for i := rec + 1; i+1 < len(offs); i++ {
+		if kinds[i] == 1 {
+			pairs++
+		}
+	}
+	return rec, pairs
+}
+
+// journalField names the part of a journal record an offset falls in (length field, or the rest).
+func journalField(orig []byte, off int) string {
+	offs, lens, _, _ := nbs.DsimParseJournal(orig)
+	for i := range offs {
+		if int64(off) >= offs[i] && int64(off) < offs[i]+int64(lens[i]) {
+			if int64(off) < offs[i]+4 {
+				return "length"
+			}
+			return "body-or-checksum"
+		}
+	}
+	return "-"
+}
 
 func hashOfPrefix(data []byte) []byte {
 	h := hash.Of(data)
